@@ -158,12 +158,18 @@ func ChildMain() bool {
 	}
 	var sc Scenario
 	json.Unmarshal([]byte(os.Getenv("VERIF_CL_SCENARIO")), &sc)
+	if os.Getenv("VERIF_CL_PATIENT") == "1" {
+		patience = 4
+	}
 	res := run(os.Getenv("VERIF_CL_DIR"), sc)
 	b, _ := json.Marshal(res)
 	os.Stdout.Write(append(b, '\n'))
 	os.Exit(0)
 	return true
 }
+
+// patience multiplies every wait: a scenario that did not converge is run a second time with more of it
+var patience = time.Duration(1)
 
 func run(base string, sc Scenario) (res Result) {
 	ms := make([]*member, 3)
@@ -186,7 +192,7 @@ func run(base string, sc Scenario) (res Result) {
 		}
 	}
 	leader := func() *member {
-		deadline := time.Now().Add(40 * time.Second)
+		deadline := time.Now().Add(patience * 40 * time.Second)
 		for time.Now().Before(deadline) {
 			for _, m := range ms {
 				if m.node != nil && m.node.IsLeader() {
@@ -201,7 +207,7 @@ func run(base string, sc Scenario) (res Result) {
 	var digests [][]byte
 	down := -1
 	converge := func(what string) bool {
-		deadline := time.Now().Add(90 * time.Second)
+		deadline := time.Now().Add(patience * 90 * time.Second)
 		for time.Now().Before(deadline) {
 			ld := leader()
 			if ld == nil {
@@ -365,7 +371,10 @@ func run(base string, sc Scenario) (res Result) {
 // ---------------------------------------------------------------- parent
 
 // Run executes one scenario in a fresh child process.
-func Run(dir string, sc Scenario) (*Result, string) {
+func Run(dir string, sc Scenario) (*Result, string) { return RunPatient(dir, sc, false) }
+
+// RunPatient: with patient=true every wait of the child is four times as long.
+func RunPatient(dir string, sc Scenario, patient bool) (*Result, string) {
 	self := os.Getenv("VERIF_SELF")
 	if self == "" {
 		self, _ = os.Executable()
@@ -375,6 +384,11 @@ func Run(dir string, sc Scenario) (*Result, string) {
 	b, _ := json.Marshal(sc)
 	cmd := exec.Command(self, "-test.run", "^$")
 	cmd.Env = append(os.Environ(), "VERIF_CHILD=cluster", "VERIF_CL_DIR="+dir, "VERIF_CL_SCENARIO="+string(b), "GOMAXPROCS=4")
+	wait := 8 * time.Minute
+	if patient {
+		cmd.Env = append(cmd.Env, "VERIF_CL_PATIENT=1")
+		wait = 30 * time.Minute
+	}
 	var out, errb bytes.Buffer
 	cmd.Stdout, cmd.Stderr = &out, &errb
 	if err := cmd.Start(); err != nil {
@@ -387,7 +401,7 @@ func Run(dir string, sc Scenario) (*Result, string) {
 		if err != nil {
 			return nil, "the cluster process died: " + lastPanic(errb.String(), err)
 		}
-	case <-time.After(8 * time.Minute):
+	case <-time.After(wait):
 		cmd.Process.Kill()
 		<-done
 		return nil, "the cluster process hangs"
